@@ -11,6 +11,11 @@
 //	     the model           ... E ...   where E is the expansion text a Go
 //	                         binder + template substituter predicts
 //	   and macroexpand == macroexpand-1 iterated until the head is no macro.
+//	   Sub-spaces of A: re-entrancy of one macro closure (reentr.go), stateful
+//	   macros at sites evaluated more than once (stateful.go), and macros that
+//	   return a list they did not build -- the constant body of a generated
+//	   macro, a global, a container element, a literal, an argument -- used
+//	   several times in every order (shared.go).
 //	B  quasiquote templates (complete grammars, see qq.go) against a small typed
 //	   reference expander.
 //	C  gensym: BFS over histories of gensym / defmacro / read operations.
@@ -240,6 +245,7 @@ func run(r *core.Run) {
 	timed("macro", runMacro)
 	timed("reentrancy", runReentrancy)
 	timed("stateful", runStateful)
+	timed("shared", runShared)
 	timed("gensym-bfs", runGensym)
 	timed("gensym-concurrent", runGensymConcurrent)
 	r.Extra("cpu_seconds_by_part", cpu)
